@@ -462,15 +462,22 @@ def run_opt(case):
                         acq_optimizer_kwargs=dict(n_points=case["npts"], filter_failures=case.get("ff", "mean")))
         pending = []
         step = 0
+        oneshot_raised = False
         with observed(rec):
             try:
                 for op in case["ops"]:
                     step += 1
                     if op[0] == "ask":
                         n, strat = op[1], op[2]
+                        if n > 1 and strat in ("topk", "boltzmann"):
+                            # outside the property (hypothesis code 4); boltzmann may raise on equal acquisition values (NaN probabilities)
+                            try:
+                                opt.ask(n_points=n, strategy=strat)
+                            except ValueError:
+                                oneshot_raised = True
+                            break
                         out = opt.ask() if n == 0 else opt.ask(n_points=n, strategy=strat)
-                        if not (n > 1 and strat in ("topk", "boltzmann") and rec.events[-1][3] == []):
-                            pending.extend([out] if n == 0 else out)  # one-shot batches are points of the transformed space (F03): never told
+                        pending.extend([out] if n == 0 else out)
                     elif op[0] == "tell":
                         k = min(op[1], len(pending))
                         if k == 0:
